@@ -328,6 +328,14 @@ RAW_MODULES = {
     "test_without_body": ("ct_add_test(NAME declared_only)\n" + D_.format(m="fn-1") + "function(plain_fn a)\nendfunction()\n"
                           "ct_add_test(NAME with_body)\nfunction(${with_body})\n  ct_add_section(NAME sec_declared_only)\n" + D_.format(m="mac-2") +
                           "  macro(helper_mac x)\n  endmacro()\nendfunction()\n"),
+    # doc texts that mention other (undocumented) commands of the file the way people write them: name()
+    "mentions": ("function(helper_fn a)\nendfunction()\nmacro(helper_mac)\nendmacro()\noption(WITH_HELP \"h\" ON)\n" +
+                 "#[[[\n# Doc marker caller-1.\n#\n# Calls helper_fn() and helper_mac(), see also add_test() and WITH_HELP.\n#]]\n"
+                 "function(caller x)\n  helper_fn(${x})\nendfunction()\n"),
+    # the doccomment sits on the implementing definition, the declaration has none
+    "doc_on_definition": ("cpp_class(Box)\n  cpp_member(resize Box int int)\n" + D_.format(m="resize-1") +
+                          "  function(\"${resize}\" self width height)\n  endfunction()\ncpp_end_class()\n"
+                          "ct_add_test(NAME my_test)\n" + D_.format(m="body-2") + "function(${my_test})\nendfunction()\n"),
 }
 
 
